@@ -599,12 +599,40 @@ def _check_read_all(run, world, mod, Q, fn, cfg, ys, sel):
                     n.ast.targets[0], ast.Name) and _nones_count(
                         n.ast.value) == start_name:
             lst = n.ast.targets[0].id
+    indexed = False
+    if lst is None:
+        # the image allocated once and filled by index: `L = [None] * N`,
+        # `L[<loop variable>] = byte` - index == address by construction;
+        # N must reach the last accessible location
+        lv = unparse(loop.ast.target)
+        for n in cfg.reachable:
+            if n.kind == "stmt" and isinstance(n.ast, ast.Assign) and len(
+                    n.ast.targets) == 1 and isinstance(
+                        n.ast.targets[0], ast.Name):
+                cnt = _nones_count(n.ast.value)
+                if cnt is None:
+                    continue
+                nm = n.ast.targets[0].id
+                stores = [x for x in ast.walk(loop.ast) if isinstance(
+                    x, ast.Subscript) and isinstance(x.ctx, ast.Store) and
+                    unparse(x.value) == nm]
+                appends = [x for x in ast.walk(fn) if isinstance(
+                    x, ast.Call) and isinstance(x.func, ast.Attribute) and
+                    x.func.attr in ("append", "extend", "insert", "pop") and
+                    unparse(x.func.value) == nm]
+                big = {"max(%s, %s + 1)" % (start_name, lavar),
+                       "max(%s + 1, %s)" % (lavar, start_name),
+                       "%s + 1" % lavar, "1 + %s" % lavar}
+                if stores and not appends and all(
+                        unparse(x.slice) == lv for x in stores) and \
+                        cnt in big:
+                    lst, indexed = nm, True
     run.ob("R-MEMR-SNAP", Q + "#list-prefix", lst is not None,
            "the raw list must start as %s placeholders (None) so that "
            "index == location address" % start_name, where(mod, fn))
     if lst is None:
         return
-    bad = _iteration_append_counts(loop, lst)
+    bad = _iteration_append_counts(loop, lst) if not indexed else set()
     run.ob("R-MEMR-SNAP", Q + "#one-entry-per-location", not bad,
            "an iteration of the read loop can complete with %s entries "
            "appended to %s: the list index no longer equals the location "
